@@ -117,6 +117,10 @@ def sort_path(c):
 def sort_key(c, why):
     fam = SORT_FNS[c["fn"]][0]
     path = sort_path(c)
+    if c["fn"] == "vector-find-median!" and why in ("not-ordered", "not-a-permutation", "not-stable"):
+        # the sorting step of vector-find-median! (it calls vector-sort!) went wrong: same family and path as the sorts
+        fam = "sort"
+        path = ("opcode-" + c["ord"]) if (c["wrap"] == "bare" and c["dom"] in NUMERIC) else "callback"
     k = "sort:%s:%s:%s:%s" % (fam, why, path, c["seq"])
     if path.startswith("opcode") and why != "not-stable":
         k += ":" + c["dom"]
